@@ -968,12 +968,22 @@ def correspondence(rep, rng, tier):
             'trace-domain names, lookups): outside the property, model vs. code only (oracle checks result/type when a trace '
             'is delivered)')
     P.section_pipeline(rep, rng, tier, n=1500 if tier == 'quick' else 12000)
+    from .. import tsorder, scenhist
+    tsorder.section(rep, rng, tier, 'C20')
+    scenhist.section(rep, rng, tier, 'C20')
 
 
 def replay(path):
     with open(path) as fd:
         r = json.load(fd)
     rp = r['replay']
+    if rp.get('section') in ('timestamp-order', 'scenario-history'):
+        from .. import tsorder, scenhist
+        bad, lines = (tsorder if rp['section'] == 'timestamp-order' else scenhist).replay(rp)
+        print('\n'.join(lines))
+        if bad:
+            print(f'VIOLATION property=C20 replay={path}')
+        return 1 if bad else 0
     c = rp['case']
     got = P.impl_route_fn(c)
     model = core.drive([P.line(c)])[0]
